@@ -225,7 +225,8 @@ def gen_doc(rng, dup=False, max_paras=4, max_fields=6):
                 pass
             comment = ""
             if rng.random() < 0.25:
-                comment = "".join("#%s\n" % rng.choice([" field comment", "", " two", "##"])
+                comment = "".join("#%s\n" % rng.choice([" field comment", "", " two", "##",
+                                                         " form\x0cfeed", " nel\x85x\u2028y"])
                                   for _ in range(rng.randint(1, 2)))
             segs.append(Seg(comment, gen_body(rng, spelled)))
         paras.append(segs)
